@@ -3,19 +3,19 @@ T = lambda q, t: {"quick": q, "thorough": t}
 SPEC = dict(
     level="fault_enumeration",
     technique="enumerated file faults (main x notebook x backup) x retry configurations through the real LoadDatabaseWithFallback, attempts and waits counted exactly by an observer hook inside the retry loop",
-    level_text="Every combination of {valid, empty list, 0 bytes, missing, permission-denied, directory, dangling symlink, malformed YAML, wrong shape, "
-               "binary garbage} on the main and the notebook file and {missing, valid, malformed} on the backup is created on disk (10x10x3 = 300 "
+    level_text="Every combination of {valid, empty list, 0 bytes, missing, permission-denied, directory, dangling symlink, symlink loop, unsearchable parent "
+               "directory, malformed YAML, wrong shape, binary garbage} on the main and the notebook file and {missing, valid, malformed} on the backup is created on disk (12x12x3 = 432 "
                "combinations, each under 2 (quick) / 6 (thorough) of 180 retry configurations), plus transient faults repaired when the observer "
-               "reports attempt j, plus the default configuration. The returned (database, error), its searchability, which database it is, the "
+               "reports attempt j, plus steep back-off configurations whose product overflows int64 (every wait must still lie in [previous, maximum]), plus the default configuration. The returned (database, error), its searchability, which database it is, the "
                "number of load attempts and every requested wait are checked against the statement. Permission faults are real: the shard re-executes "
                "itself under setpriv as uid 65534.",
     level_note="Attempts and waits are observed by the verif hook (before time.Sleep), never inferred from wall-clock time. BackoffFactor < 1 is not a back-off and is excluded.",
     engines=[dict(name="loadfaults", shards=T(16, 16), timeout=T(900, 3600))],
     rule="case = (main fault, notebook fault, backup fault, retry configuration, transient-repair point); every case is non-trivial (each creates real files and drives the real loader); "
          "distinct by the tuple.",
-    floors=T({"permission-faults-exercised": 80, "retried": 100, "multi-wait-sequences": 30, "transient": 100, "returned-real": 50, "returned-fallback": 300,
+    floors=T({"permission-faults-exercised": 80, "retried": 100, "multi-wait-sequences": 30, "transient": 100, "steep-backoff-configs": 20, "returned-real": 50, "returned-fallback": 300,
               "distinct_nontrivial": 600},
-             {"permission-faults-exercised": 300, "retried": 400, "multi-wait-sequences": 100, "transient": 100, "returned-real": 150, "returned-fallback": 1000,
+             {"permission-faults-exercised": 300, "retried": 400, "multi-wait-sequences": 100, "transient": 100, "steep-backoff-configs": 20, "returned-real": 150, "returned-fallback": 1000,
               "distinct_nontrivial": 1800}),
     assumptions=["a non-positive configured number of attempts is read as one attempt (and either the real database or the fallback is accepted, never nil/error)",
                  "a dangling symlink as notebook may be read as absent or as broken",
